@@ -40,12 +40,44 @@ def run(rng, tier, res=None):
         seed = rng.choice([0, 0, 1, rng.randint(0, 10 ** 6), rng.randint(0, 10 ** 6), rng.randint(0, 2 ** 31 - 1)])
         np.random.seed(rng.randint(1, 10 ** 6))      # the result must not depend on the global RNG state before the call
         Xb, Yb = X.tobytes(), Y.tobytes()
-        X1, X2, Y1, Y2, I1, I2 = splitter.split_with_index(X, Y, pct, seed)
-        np.random.seed(rng.randint(1, 10 ** 6))
-        again = splitter.split_with_index(X, Y, pct, seed)
-        np.random.seed(rng.randint(1, 10 ** 6))
-        X1b, X2b, Y1b, Y2b = splitter.split(X, Y, pct, seed)
-        Xm, Ym = splitter.merge(X1, X2, Y1, Y2)
+        try:
+            X1, X2, Y1, Y2, I1, I2 = splitter.split_with_index(X, Y, pct, seed)
+            np.random.seed(rng.randint(1, 10 ** 6))
+            again = splitter.split_with_index(X, Y, pct, seed)
+            np.random.seed(rng.randint(1, 10 ** 6))
+            X1b, X2b, Y1b, Y2b = splitter.split(X, Y, pct, seed)
+            Xm, Ym = splitter.merge(X1, X2, Y1, Y2)
+        except Exception as ex:
+            viol(f"split/merge raised {type(ex).__name__}: {ex}", {"n": n, "percentage": pct, "seed": seed})
+            continue
+        # what the caller received is the caller's: editing it in place must not change what a later call returns
+        if case % 3 == 0 and n >= 2:
+            first = [np.array(a, copy=True) for a in (X1, X2, Y1, Y2, I1, I2)]
+            I1s, I2s = np.array(I1, copy=True), np.array(I2, copy=True)
+            try:
+                I1.sort(); I2 += 1; Y1[...] = 7; X2[...] = -1.0
+            except Exception:
+                pass
+            try:
+                later = splitter.split_with_index(X, Y, pct, seed)
+                later2 = splitter.split(X, Y, pct, seed)
+            except Exception as ex:
+                later = later2 = [np.zeros(0)] * 6
+                res.violations.append({"property": "C18", "what": f"split raised {type(ex).__name__} after the caller edited the arrays an "
+                                       f"earlier split returned", "replay": {"n": n, "percentage": pct, "seed": seed}})
+            if any(np.asarray(a).tobytes() != np.asarray(b).tobytes() for a, b in zip(first, later)) or \
+                    any(np.asarray(a).tobytes() != np.asarray(b).tobytes() for a, b in zip(first[:4], later2)):
+                res.violations.append({"property": "C18", "what": "after the caller edited the arrays an earlier split returned, the same split "
+                                       "(same data, percentage, seed) returns something else: not a function of the seed", "replay":
+                                       {"n": n, "percentage": pct, "seed": seed}})
+                res.violations.append({"property": "C07", "what": "split results depend on what the caller did to earlier results (shared state)",
+                                       "replay": {"n": n, "percentage": pct, "seed": seed}})
+            if X.tobytes() != Xb or Y.tobytes() != Yb:
+                res.violations.append({"property": "C07", "what": "editing the arrays returned by split changed the caller's original data "
+                                       "(the outputs alias the inputs)", "replay": {"n": n}})
+                X = np.frombuffer(Xb, dtype=X.dtype).reshape(X.shape).copy(); Y = np.frombuffer(Yb, dtype=Y.dtype).copy()
+            X1, X2, Y1, Y2, I1, I2 = first
+            res.hit("split_after_caller_edit")
         np.random.seed(seed)
         perm = [int(v) for v in np.random.permutation(n)]
         halt = len(X1)
@@ -138,7 +170,9 @@ def run(rng, tier, res=None):
         raw = struct.pack("<iii", n, K, d)
         for i in range(n):
             raw += struct.pack("<ii" + "f" * d, ids[i], labels1[i], *feats[i])
-        base = os.path.join(tmp, f"c{case}")
+        # a few path names per shape are re-used: a file re-written with another dataset of the same size is a new dataset
+        base = os.path.join(tmp, f"c{n}_{d}_{case % 2}")
+        res.hit("convert_path_reused" if os.path.exists(base + ".dat") else "convert_path_new")
         with open(base + ".dat", "wb") as f:
             f.write(raw)
         meta = {"n": n, "d": d, "ids": ids, "labels1": labels1, "feats": feats}
